@@ -219,3 +219,28 @@ def api_name(body):
     else:
         base = "::".join(root.split("::")[-2:]) if root.count("::") > 1 else root
     return base + suffix.replace("::{closure#0}", "", 1) if suffix.startswith("::{closure#0}") and body.is_coroutine else base + suffix
+
+
+def borrow(chk, module, wanted, why):
+    """Obligations that two properties share: run the rule module that owns them and take over the ones whose key starts
+    with one of `wanted` — under this property too, so that the check of *this* property reports their violation.
+    Fails closed: the owner crashing, or none of the wanted obligations being produced, is itself a violated obligation."""
+    import importlib, traceback
+    from . import core
+    mod = importlib.import_module("rules.%s" % module.lower())
+    other = Check(module.upper(), chk.tier)
+    try:
+        mod.run(other)
+    except core.ToolFailure:
+        raise
+    except Exception as e:
+        sys.stderr.write(traceback.format_exc())
+    got = [o for o in other.obs if any(o.key.startswith(w) for w in wanted)]
+    for w in wanted:
+        if not any(o.key.startswith(w) for o in got):
+            chk.ob("shared with %s" % module.upper(), "shared|%s|%s" % (module.upper(), w), False, "rules/%s.py" % module.lower(),
+                   "anchor-missing: the obligation %s of %s (%s) was not produced on this tree" % (w, module.upper(), why))
+    for o in got:
+        chk.obs.append(Obligation("shared with %s: %s" % (module.upper(), o.rule), o.key, o.ok, o.construct, "%s — %s" % (o.witness, why), o.nontrivial))
+    chk.analysed_functions |= other.analysed_functions
+    return got
